@@ -53,3 +53,8 @@ CHECKS["C09"] = (
  "6*10^5 (quick) / 1.6*10^7 (thorough) cases: generated documents of well-formed HTML constructs (all attribute syntaxes, void/end tags, six raw-text elements with look-alike end tags and script double-escape, plaintext, svg/math) in random case and whitespace, half with one of the six template dialects, are lexed and every token is compared (type, exact bytes, Text/AttrKey, AttrVal, HasTemplate) with the abstract document; on hostile bytes Attribute tokens must lie between a start tag and its closer. Held on what was observed; three recorded known findings about svg/math content are probed individually.",
  "Random svg/math content avoids the three shapes recorded in known_findings.jsonl; template regions are placed at the positions the unit tests document.",
  "DESIGN.md §4 C09")
+CHECKS["C07"] = (
+ "construction-time ground truth from a token-sequence generator with a conservative would-merge predicate, differential monitor IsIdent/IsURLUnquoted vs the lexer (runtime monitoring)",
+ "10^6 (quick) / 2.5*10^7 (thorough) cases: sequences of 1-40 tokens over all 33 token kinds, separated only where neighbours could merge, must lex to exactly the written (type, text) sequence incl. BadString on a raw newline and one BadURL up to the closing parenthesis; IsIdent and IsURLUnquoted are compared with the lexer on byte strings around the syntax boundaries. Evidence lists the adjacent-kind pairs observed. Held on what was observed.",
+ "The generator encodes the css-syntax-3 railroad diagrams plus the 2014 tokens the lexer keeps; url is spelled with plain letters.",
+ "DESIGN.md §4 C07")
